@@ -304,7 +304,7 @@ func applyMut(typ string, p val.V, m Mut) (val.V, string, bool) {
 	return p, "", false
 }
 
-var envMuts = []string{"", "one-entry", "three-entries", "two-tags", "header-only", "unknown-tag", "other-version", "other-type-tag", "no-prefix-tag", "header-int", "sig-not-bytes"}
+var envMuts = []string{"", "one-entry", "three-entries", "two-tags", "h+aux-short+payload", "h+payload+aux-long", "h+aux-short-map+payload", "h+both-type-tags", "h+other-version+payload", "h+payload+payload-copy-long", "header-only", "unknown-tag", "other-version", "other-type-tag", "no-prefix-tag", "header-int", "sig-not-bytes"}
 
 // buildEnvelope signs the payload correctly and applies the envelope-level mutation.
 func buildEnvelope(typ string, payload val.V, envMut string) (ipld.Node, string, error) {
@@ -330,6 +330,30 @@ func buildEnvelope(typ string, payload val.V, envMut string) (ipld.Node, string,
 			other = env.DlgTag
 		}
 		entries = []val.KV{{K: tag, V: payload}, {K: other, V: payload}}
+		verdict = "reject"
+	case "h+aux-short+payload":
+		// header, the payload under the right tag, and one more "ucan/..." entry: three entries, two of which look
+		// like payloads. In canonical key order the short tag comes first, the genuine payload last.
+		entries = append(entries, val.KV{K: "ucan/aux", V: val.Int(1)})
+		verdict = "reject"
+	case "h+aux-short-map+payload":
+		entries = append(entries, val.KV{K: "ucan/a", V: val.Map(val.E("iss", val.Str("x")))})
+		verdict = "reject"
+	case "h+payload+aux-long":
+		entries = append(entries, val.KV{K: "ucan/zzzzzzzzzzzzzzzzzzzzzzzzzzzz@1.0.0-rc.1", V: val.Int(1)})
+		verdict = "reject"
+	case "h+payload+payload-copy-long":
+		entries = append(entries, val.KV{K: tag + "-bis", V: payload})
+		verdict = "reject"
+	case "h+both-type-tags":
+		other := env.InvTag
+		if typ == "inv" {
+			other = env.DlgTag
+		}
+		entries = append(entries, val.KV{K: other, V: val.Map(val.E("junk", val.Int(1)))})
+		verdict = "reject"
+	case "h+other-version+payload":
+		entries = append(entries, val.KV{K: strings.Replace(tag, "rc.1", "rc.0", 1), V: val.Int(0)})
 		verdict = "reject"
 	case "header-only":
 		entries = entries[:1]
